@@ -5,6 +5,7 @@ import (
 	"fmt"
 	"net"
 	"strconv"
+	"strings"
 )
 
 // IPRange represents range of IP addresses.
@@ -80,18 +81,24 @@ func parseCIDRorMask(s string, sepIdx int) *IPRange {
 	}
 
 	maskAsIP := net.ParseIP(s[sepIdx+1:])
-	prefixLen, prefixLenErr := strconv.Atoi(s[sepIdx+1:])
 
-	addrLen := len(addr)
-	if addr.To4() != nil {
-		addrLen = net.IPv4len // we should know this for mask length
+	prefixLen, prefixLenErr := -1, strconv.ErrSyntax
+	if isDigits(s[sepIdx+1:]) { // Atoi also takes a sign: "/-0" is not a prefix length
+		prefixLen, prefixLenErr = strconv.Atoi(s[sepIdx+1:])
+	}
+
+	// family is defined by notation, not by value: "::ffff:c0a8:0/120" is IPv6 CIDR (which covers mapped IPv4 addresses)
+	addrLen := net.IPv6len // we should know this for mask length
+	if !strings.Contains(s[:sepIdx], ":") {
+		addrLen = net.IPv4len
+		addr = addr.To4()
 	}
 
 	var mask net.IPMask
 	switch {
 	case maskAsIP != nil: // maybe mask in IP form
 		mask4 := maskAsIP.To4()
-		if mask4 == nil || addrLen != net.IPv4len { // only for v4
+		if mask4 == nil || addrLen != net.IPv4len || strings.Contains(s[sepIdx+1:], ":") { // only for v4
 			break
 		}
 
@@ -124,6 +131,16 @@ func parseCIDRorMask(s string, sepIdx int) *IPRange {
 		left:  left.To16(), // back to v6 form for canonical view
 		right: right.To16(),
 	}
+}
+
+func isDigits(s string) bool {
+	for _, c := range s {
+		if c < '0' || c > '9' {
+			return false
+		}
+	}
+
+	return s != ""
 }
 
 func lastByMask(ip net.IP, mask net.IPMask) net.IP {
